@@ -587,6 +587,7 @@ def run_generator_typing():
 # ------------------------------- consequence: same-sort replacements (z3)
 
 CONSEQ_MUTS = [('mutators_core', 'Constants'),
+               ('mutators_core', 'ReplaceByChild'),
                ('mutators_core', 'ReplaceByVariable'),
                ('mutators_smtlib', 'IntroduceFreshVariable')]
 CONSEQ_NUMS = ((3, 5, 2), (7, 4, 2), (9, 3, 1), (1, 1, 0))
@@ -650,6 +651,28 @@ def _user_sorts(exprs):
         if idt == 'declare-datatypes' and not e[1].is_leaf():
             out |= {d[0].data for d in e[1] if len(d) > 0 and d[0].is_leaf()}
     return out
+
+
+def _cvc5_strict_accepts(text):
+    """None if cvc5 with strict parsing accepts the script (z3 and cvc5 in
+    their default modes coerce between Int and Real), else the message."""
+    import cvc5
+    tm = cvc5.TermManager()
+    slv = cvc5.Solver(tm)
+    slv.setOption('strict-parsing', 'true')
+    par = cvc5.InputParser(slv)
+    par.setStringInput(cvc5.InputLanguage.SMT_LIB_2_6,
+                       '(set-logic ALL)' + text, 'q')
+    sm = par.getSymbolManager()
+    try:
+        while True:
+            c = par.nextCommand()
+            if c.isNull():
+                break
+            c.invoke(slv, sm)
+        return None
+    except Exception as e:
+        return str(e)[:300]
 
 
 def _z3_accepts(text):
@@ -719,6 +742,9 @@ def conseq_instance(fname, nums, want=None):
     muts = [(cn, getattr(importlib.import_module('ddsmt.' + mn), cn)())
             for mn, cn in CONSEQ_MUTS]
     n = oos = 0
+    # strict arithmetic typing where the original script passes it
+    strict = fname.startswith('arith') and \
+        _cvc5_strict_accepts(nodeio.write_smtlib_to_str(exprs1)) is None
 
     usersorts = set()
 
@@ -729,7 +755,12 @@ def conseq_instance(fname, nums, want=None):
             repl = list(p.substs.values())
             res = apply_simp(exprs, Simplification(dict(p.substs),
                                                    list(p.fresh_vars)))
-            err = _z3_accepts(nodeio.write_smtlib_to_str(res))
+            txt = nodeio.write_smtlib_to_str(res)
+            err = _z3_accepts(txt)
+            if not err and strict:
+                # arithmetic: Int and Real must not be mixed (the solvers
+                # coerce silently unless asked to be strict)
+                err = _cvc5_strict_accepts(txt)
             if not err:
                 continue
             used = {x.data for r in repl if r is not None
@@ -768,6 +799,11 @@ def conseq_instance(fname, nums, want=None):
                 continue
             for node, scope in acc:
                 try:
+                    if cn == 'ReplaceByChild' and \
+                            smtlib.get_sort(node) is None:
+                        # 'a child of the same sort' is only a promise when
+                        # the sort is known
+                        continue
                     if not phase.startswith('B') and not m.filter(node):
                         continue
                     props = _proposals_of(m, node, exprs)
